@@ -33,6 +33,7 @@ struct Finding {
   std::string claim;
   std::vector<std::string> tags;
   std::string detail;
+  long double value = 0;      // measured quantity where one exists (S3: excess beyond the box, G6: distance)
   void set(const std::string& c, const std::vector<std::string>& t, const std::string& d) { bad = true; claim = c; tags = t; detail = d; }
 };
 
@@ -94,6 +95,7 @@ inline bool check_structural(const Paths64& sol, const Paths64& inputs, bool che
           f.set(kS3, { ex <= 1 ? "outside_by_1" : (ex <= 2 ? "outside_by_2" : "outside_by_more"), "in_" + what },
                 what + " vertex " + pstr(v) + " of path #" + std::to_string(pi) + " lies outside the input bounding box [" +
                 std::to_string(x0) + "," + std::to_string(x1) + "]x[" + std::to_string(y0) + "," + std::to_string(y1) + "] by " + ldstr((ld)ex));
+          f.value = (ld)ex;
           return false;
         }
       }
@@ -283,6 +285,7 @@ inline bool check_geometric(const Paths64& sol, const Paths64& inputs, bool pc, 
         }
         if (best > lim) {
           best = min_dist_to_edges(inputs, v);
+          f.value = best;
           f.set(kG6, { best <= tol + 1 ? "within_tol_plus_1" : (best <= 2 * tol ? "within_2tol" : "beyond_2tol") },
                 "solution vertex " + pstr(v) + " of path #" + std::to_string(pi) + " is " + ldstr(best) + " from the nearest input edge, tol " + ldstr(tol));
           return false;
